@@ -197,6 +197,7 @@ func (t *Tap) decodeDatagram(flow string, b []byte) (*refproto.Segment, string) 
 	if k, ok := t.lastKey[flow]; ok {
 		if s, err := refproto.DecodeDatagramWithKey(b, k); err == nil {
 			s.User = t.lastUser[flow]
+			s.HintOK = refproto.HintMatches(s.User, s.Nonce[:])
 			return s, ""
 		}
 	}
@@ -209,6 +210,7 @@ func (t *Tap) decodeDatagram(flow string, b []byte) (*refproto.Segment, string) 
 			if err == nil {
 				s.User = c.User
 				s.Slot = slot
+				s.HintOK = refproto.HintMatches(c.User, s.Nonce[:])
 				t.lastKey[flow] = k
 				t.lastUser[flow] = c.User
 				return s, ""
@@ -363,6 +365,12 @@ func (t *Tap) StreamBytes(c *simnet.ConnInfo, dir simnet.Dir, off int64, b []byt
 		t.kinds[kindName(s.Meta.Type)+"/tcp"]++
 		if t.record {
 			t.geo = append(t.geo, geoOf(s, fmt.Sprintf("tcp#%d", c.ID), st.client, c.ID, int(dir), -1))
+		}
+		if s.HasNonce && !s.HintOK {
+			cid, d, u, n := c.ID, dir, s.User, s.Nonce
+			todo = append(todo, func() {
+				t.w.violate("C09", "nonce-without-documented-user-hint", "conn #%d %s: the nonce % x does not end in the first 4 bytes of SHA-256(user || nonce[0:16]) for user %q (%d-byte name)", cid, d, n[:], u, len(u))
+			})
 		}
 		todo = append(todo, t.onStreamSegment(st, dir, s)...)
 	}
@@ -606,6 +614,12 @@ func (t *Tap) DatagramSent(d *simnet.Datagram) {
 	} else {
 		t.segs++
 		t.kinds[kindName(s.Meta.Type)+"/udp"]++
+		if s.HasNonce && !s.HintOK {
+			id, fl, dr, u, n := d.ID, d.Flow, d.Dir, s.User, s.Nonce
+			todo = append(todo, func() {
+				w.violate("C09", "nonce-without-documented-user-hint", "datagram #%d %s %s: the nonce % x does not end in the first 4 bytes of SHA-256(user || nonce[0:16]) for user %q (%d-byte name)", id, fl, dr, n[:], u, len(u))
+			})
+		}
 		if w.Spec.KeepLog {
 			w.Net.Logf("  seg #%d %s sess=%d seq=%d unack=%d win=%d frag=%d pre=%d pay=%d suf=%d fate=%s", d.ID, kindName(s.Meta.Type), s.Meta.SessionID, s.Meta.Seq, s.Meta.UnAckSeq, s.Meta.Window, s.Meta.Fragment, s.Meta.PrefixLen, len(s.Payload), s.Meta.SuffixLen, d.Fate.Why)
 		}
@@ -700,6 +714,11 @@ func (t *Tap) c13OnSend(ss *sessTap, dir int, s *refproto.Segment, d *simnet.Dat
 				})
 			}
 		}
+	}
+	if (m.Type == refproto.TypeCloseReq || m.Type == refproto.TypeCloseResp) && m.Seq == ss.nextNew[dir] {
+		// a close message takes the next sequence number of its direction; data written by
+		// a Write that races the Close is numbered after it
+		ss.nextNew[dir] = m.Seq + 1
 	}
 	if m.Type == refproto.TypeCloseReq {
 		ss.closeSeen[dir] = true
